@@ -205,6 +205,11 @@ fn one(rep: &mut Report, mon: &str, case: u64, g: &mut Sm64, ctx: &Ctx, entry: E
     rep.count(&format!("layout[{layout:?}]"));
     let cfg = json!({"entry": format!("{entry:?}"), "type": format!("{ty:?}"), "shape": [a, b, c], "encoded_cells": encode, "memory_layout": format!("{layout:?}")});
     let sig = format!("{entry:?}");
+    // sometimes the target file already exists with longer, unrelated content: it must be replaced
+    if g.chance(0.3) {
+        let _ = std::fs::write(&path, vec![b'#'; 20_000 + g.below(50_000)]);
+        rep.count("target_file_pre_existing");
+    }
     rep.eval();
     rep.count(&format!("entry[{entry:?}]"));
     // write
